@@ -36,6 +36,13 @@ theorem raw_writers_valid_iff (f g : Nat → O) (i : Ind O) (s : Nat) (o : O) :
   · intro h o' ho'; simp [Ind.setObjective] at ho'; rw [← ho']; exact h
   · intro h o' ho'; simp [Ind.evaluateWith] at ho'; rw [← ho']; exact h
 
+/-- `clone_from` is assignment: afterwards the target IS the source (solution and objective together),
+whatever the target held before — in particular an unevaluated source leaves an unevaluated target.
+The same holds element-wise for `Vec::clone_from`. -/
+theorem clone_from_is_assignment (tgt src : Ind O) (p q : List (Ind O)) :
+    tgt.cloneFrom src = src ∧ vecCloneFrom p q = q :=
+  ⟨by cases src; rfl, vecCloneFrom_eq p q⟩
+
 /-- Only `solution_mut` changes the solution: every other method keeps it. -/
 theorem only_solution_mut_changes_sol (g : Nat → O) (i : Ind O) (o : O) :
     (i.evaluateWith g).sol = i.sol ∧ (i.setObjective o).1.sol = i.sol ∧ i.clone.sol = i.sol ∧
@@ -50,6 +57,8 @@ def Honest (f : Nat → O) (p : List (Ind O)) : ApiOp O → Prop
   | .new s o => o = f s
   | .evalW i o => ∀ x, p[i]? = some x → o = f x.sol
   | .setObj i o => ∀ x, p[i]? = some x → o = f x.sol
+  | .vecCloneFrom src => AllValid f src
+  | .sliceCloneFrom src => AllValid f src
   | _ => True
 
 /-- Every API operation (individual methods and collection helpers) maps valid inputs to valid outputs;
@@ -93,6 +102,18 @@ theorem api_preserves_valid (f : Nat → O) (p : List (Ind O)) (op : ApiOp O)
       rw [allValid_append]
       exact ⟨hp, by intro j hj; simp at hj; subst hj; exact valid_clone f x (hp x (List.mem_of_getElem? hx))⟩
     · exact hp
+  | cloneFrom i j =>
+    simp only [apiStep]; split
+    · rename_i x y hx hy
+      exact allValid_set f p i _ hp (by
+        have := hp y (List.mem_of_getElem? hy)
+        cases y; exact this)
+    · exact hp
+  | vecCloneFrom src => simp only [apiStep, vecCloneFrom_eq]; exact hh
+  | sliceCloneFrom src =>
+    simp only [apiStep]; split
+    · exact allValid_zipWith_cloneFrom f p src hh
+    · exact hp
   | sol i | isEval i | getObj i | objective i =>
     simp only [apiStep]; split <;> exact hp
   | eq i j => simp only [apiStep]; split <;> exact hp
@@ -126,7 +147,9 @@ theorem api_outputs_valid (f : Nat → O) (p : List (Ind O)) (op : ApiOp O) (i :
     · rename_i r hr
       injection ho with ho; subst ho
       exact key (bestIndividual_mem p i hr)
-  | new s o | newU s | asSols | asSolsMut ws | intoSols | intoInds ss => simp [apiStep] at ho
+  | new s o | newU s | asSols | asSolsMut ws | intoSols | intoInds ss | vecCloneFrom src => simp [apiStep] at ho
+  | cloneFrom k j => simp only [apiStep] at ho; split at ho <;> simp at ho
+  | sliceCloneFrom src => simp only [apiStep] at ho; split at ho <;> simp at ho
   | eval k | evalW k o | setObj k o | sol k | solMut k w | intoSol k | clone k | isEval k | getObj k =>
     simp only [apiStep] at ho; split at ho <;> simp at ho
   | objective k =>
@@ -170,7 +193,8 @@ theorem inplace_ops_keep_solutions (f : Nat → O) (p : List (Ind O)) (op : ApiO
   | asSols => rfl
   | single | singleRef => simp only [apiStep]; split <;> rfl
   | best => simp only [apiStep]; split <;> rfl
-  | new s o | newU s | intoSol k | clone k | asSolsMut ws | intoSols | intoInds ss => simp [inPlace] at h
+  | new s o | newU s | intoSol k | clone k | asSolsMut ws | intoSols | intoInds ss | cloneFrom k j | vecCloneFrom src
+  | sliceCloneFrom src => simp [inPlace] at h
 
 /-- Honest histories: every raw write along the history uses `f sol` of the member it writes. -/
 def HonestRun (f : Nat → O) : List (Ind O) → List (ApiOp O) → Prop
@@ -354,8 +378,8 @@ theorem empty_valid (f : Nat → O) : AllValidPM f ({} : PM O) :=
 
 /-! Non-vacuity. -/
 example : HonestRun (fun s => s * s) ([] : List (Ind Nat))
-    [.new 3 9, .newU 2, .eval 1, .clone 0, .solMut 0 (some 5), .setObj 0 25, .asSolsMut [none, some 1], .best] := by
-  simp [HonestRun, Honest, apiStep, Ind.new, Ind.newUnevaluated, Ind.evaluateWith, Ind.clone, Ind.solutionMut]
+    [.new 3 9, .newU 2, .eval 1, .clone 0, .cloneFrom 0 1, .solMut 0 (some 5), .setObj 0 25, .asSolsMut [none, some 1], .best] := by
+  simp [HonestRun, Honest, apiStep, Ind.new, Ind.newUnevaluated, Ind.evaluateWith, Ind.clone, Ind.cloneFrom, Ind.solutionMut]
 example : ¬ Valid (fun s => s * s) (Ind.new 3 10 : Ind Nat) := by
   intro h; have := h 10 rfl; simp [Ind.new] at this
 
